@@ -174,6 +174,7 @@ func (b *Builder) ToTables(opts TableOpts) *Tables {
 			Cells:      make(map[TableKey]*TableCell),
 		}
 		tables = append(tables, table)
+		verifPoint("table", table, benchproc.Key{}, benchproc.Key{})
 
 		// Create all TableCells and fill their Samples. This
 		// is fast enough it's not worth parallelizing. This
@@ -198,17 +199,21 @@ func (b *Builder) ToTables(opts TableOpts) *Tables {
 					cell.Baseline = base
 				}
 			}
+			verifPoint("cell.spawn", table, k.Row, k.Col)
 
 			limit <- struct{}{}
 			cCell := cCell
 			go func() {
+				verifPoint("cell.begin", table, k.Row, k.Col)
 				summarizeCell(cCell, cell, assumption, opts.Confidence)
+				verifPoint("cell.end", table, k.Row, k.Col)
 				<-limit
 				wg.Done()
 			}()
 		}
 	}
 	wg.Wait()
+	verifPoint("barrier1", nil, benchproc.Key{}, benchproc.Key{})
 
 	// Add summary rows to each table.
 	for _, table := range tables {
@@ -230,18 +235,22 @@ func (b *Builder) ToTables(opts TableOpts) *Tables {
 			var s TableSummary
 			table.Summary[col] = &s
 			isBase := i == 0
+			verifPoint("col.spawn", table, benchproc.Key{}, col)
 
 			limit <- struct{}{}
 			table, col := table, col
 			wg.Add(1)
 			go func() {
+				verifPoint("col.begin", table, benchproc.Key{}, col)
 				summarizeCol(table, col, &s, nBase, isBase)
+				verifPoint("col.end", table, benchproc.Key{}, col)
 				<-limit
 				wg.Done()
 			}()
 		}
 	}
 	wg.Wait()
+	verifPoint("barrier2", nil, benchproc.Key{}, benchproc.Key{})
 
 	return &Tables{tables, keys}
 }
